@@ -11,7 +11,7 @@ ANCHOR_PREFIXES = ["text::", "element::SvgElement::element_events", "transform::
 BOUNDS = ("carriers {text attribute, element content}; shapes {rect, circle, ellipse, line, point, box, standalone text}; text-loc in the 9 named locations and the 4 edges with 25% / symbolic offset; "
           "default / d-text-inside / d-text-outside; horizontal and d-text-vertical; 1-3 lines; symbolic shape geometry (k/2 in [-128,128], sizes k/2 in [0,64]), text-offset (k/2 in [-8,8]), "
           "text-dx/dy/dxy (k/2 in [-16,16]), text-lsp (k/4 in [0.5,2]); each of the 17 text presentation attributes and text-style on rect / line / text carriers, with and without d-text-vertical; "
-          "<text> elements positioned at a named location, an edge location or a |h|H|v|V direction of another element (implicit text-loc against the explicit spelling); text-dxy combined with text-dx / text-dy; blank-line forms (leading, trailing, middle, CRLF); text-lsp / text-style on single-line text; carriers held back by a later element; seeded random combinations of all options (quick 300, thorough 4000)")
+          "<text> elements positioned at a named location, an edge location or a |h|H|v|V direction of another element (implicit text-loc against the explicit spelling); text-dxy combined with text-dx / text-dy; blank-line forms (leading, trailing, middle, CRLF); text-lsp / text-style on single-line text; carriers held back by a later element; seeded random combinations of all options (quick 300, thorough 4000); a <text> element's own transform (rotate / translate+scale / matrix; attribute, content, multi-line); no svgdx-only text-* attribute on any output element")
 ASSUMPTIONS = ["a specific text-dx / text-dy takes precedence over the corresponding component of text-dxy; a line terminator ends a line (no extra line after the last one), blank lines count as lines and may be rendered as a zero-width space",
                "anchor = text-loc location of the shape's box (default c); offset o = text-offset (default 1): inside top => y+o, bottom => y-o, left => x+o, right => x-o; outside (default for line, point, "
                "text; or d-text-outside): signs reversed; then + text-dx/dy (property text)",
